@@ -1,5 +1,5 @@
 (* C01 — parallel map (fifo_stream / Parmapper) is order-preserving. Statements only. *)
-From MpV Require Import Lib.Conc Model.FifoStream Proof.FifoProof.
+From MpV Require Import Lib.Conc Model.FifoStream Proof.FifoProof Proof.FifoComplete.
 
 (* For every configuration (capacity, pool size, source of any length with failures anywhere,
    worker outcome table, preprocessor, return_x / return_exceptions, consumer stop position) and
@@ -21,10 +21,18 @@ Theorem C01_no_exception_output : forall (g : cfg) (sched : list label),
 Proof. exact fifo_no_exc_delivered. Qed.
 Print Assumptions C01_no_exception_output.
 
-(* C01_fifo_complete_todo (not yet proved; rests on the scheduler exploration + oracle only):
-     cp s = CDone Completed -> length (received s) = length (datas (src g))
-                               /\ src g = map SData (datas (src g)).
-   C01_calls_once_todo: NoDup (calls s) /\ no call for an element the preprocessor rejected. *)
+(* When the iteration completes normally - in any schedule - the consumer has received exactly one
+   output per source element (all of them, in input order, each the outcome of its own input), and
+   the source itself did not fail. *)
+Theorem C01_fifo_complete : forall (g : cfg) (sched : list label),
+  let s := run step g (init g) sched in
+  cp s = CDone Completed ->
+  received s = map (fun i => (i, outcome_of g i)) (seq 0 (length (datas (src g))))
+  /\ src g = map SData (datas (src g)).
+Proof. exact fifo_complete. Qed.
+Print Assumptions C01_fifo_complete.
+
+(* C01_calls_once_todo (checked by the oracle on every explored run): NoDup (calls s) /\ no call for an element the preprocessor rejected. *)
 
 (* Non-vacuity: a run with out-of-order completion delivers in input order. *)
 Example C01_example :
